@@ -890,6 +890,9 @@ func lexHeaderParam(l *lexer) stateFn {
 	// Consume until the equals or end of the tag.
 	var lastNonSpace = l.pos
 	for ch := l.next(); ch != '=' && ch != '}' ; ch = l.next() {
+		if ch == eof {
+			return l.errorf("unclosed tag")
+		}
 		if !isSpace(ch) {
 			lastNonSpace = l.pos
 		}
